@@ -215,8 +215,25 @@ func run(args []string) {
 					panics++
 				}
 				mu.Unlock()
+				ids := func(key string) []any {
+					out := []any{}
+					if l, ok := head[key].([]any); ok {
+						for _, x := range l {
+							if m, ok := x.(map[string]any); ok {
+								out = append(out, m["id"])
+							}
+						}
+					}
+					return out
+				}
+				feats, _ := head["features"].([]any)
+				if feats == nil {
+					feats = []any{}
+				}
+				eng, _ := head["engine"].(string)
 				results[i] = []trace.Event{
-					{"ev": "Reset", "n": 0, "scenario": head["id"], "cfg": head, "died": true},
+					{"ev": "Reset", "n": 0, "scenario": head["id"], "died": true, "engine": eng,
+						"srcs": ids("sources"), "dsts": ids("dests"), "features": feats},
 					{"ev": kind, "n": 1, "scenario": head["id"], "stderr": lastLines(wk.stderr.String(), 40)},
 				}
 				wk = nil
